@@ -912,3 +912,35 @@ def _str_slice(ex, st, s, lo, hi):
     lo = lo if lo is not None else I(0)
     hi = hi if hi is not None else I(-1)
     return VStr(_ufun(ex, "str_slice", [STR, INT, INT], STR, s.t, lo, hi))
+
+
+@ext("collections.deque")
+def _deque_new(ex, st, args, kwargs, k, where):
+    ml = kwargs.get("maxlen")
+    if args or ml is None:
+        raise Unsupported(f"deque() form at {where}")
+    hint = ex.kind_hints.get((ex.cur_func_name, "deque"))
+    ek = parse_kind(hint).elem if hint else K_INT
+    s2, d = ex.new_deque(st, ek, ex.num(ex.unwrap_strict(ml)))
+    return k(s2, d)
+
+
+@REG.specfn("fstr")
+def _fstr_spec(ex, st, shape, *vals):
+    """spec-side twin of an f-string: fstr("{}:{}", a, b) denotes the same term as f"{a}:{b}" in code"""
+    txt = shape.lit
+    parts = []
+    i = 0
+    n = 0
+    for piece in re.split(r"(\{\})", txt):
+        if piece == "{}":
+            parts.append(("expr", n))
+            n += 1
+        elif piece:
+            parts.append(("lit", piece))
+    return _fstring(ex, st, parts, list(vals))
+
+
+@REG.specfn("maxlen")
+def _maxlen(ex, st, d):
+    return VInt(ex.deque_maxlen(st, ex.unwrap(d)))
